@@ -122,6 +122,12 @@ func (f forwarder) Format(s fmt.State, verb rune) {
 	}
 }
 
+type c14ptrFmter struct{ tag string }
+
+func (p *c14ptrFmter) Format(s fmt.State, verb rune) {
+	fmt.Fprint(s, p.tag, readState(s, verb).norm().String()) // dereferences its receiver
+}
+
 type c14stringer struct{ s string }
 
 func (s c14stringer) String() string { return s.s }
@@ -150,7 +156,9 @@ func c14verbs() []rune {
 func c14operands() []interface{} {
 	x := 7
 	return []interface{}{42, -7, uint8(200), 3.5, float32(-0.25), complex(1, -2), "hé y", []byte("ab\x00"), true, nil,
-		errors.New("e\nrr"), c14stringer{"str‹"}, flagPrinter{"fp"}, &x, []interface{}{1, "a"}, struct{ A int }{3}}
+		errors.New("e\nrr"), c14stringer{"str‹"}, flagPrinter{"fp"}, &x, []interface{}{1, "a"}, struct{ A int }{3},
+		// nil pointers whose Format method cannot run (fmt prints <nil>), a pointer to a struct, a map of structs
+		(*flagPrinter)(nil), (*c14ptrFmter)(nil), &struct{ A, B int }{1, 2}, map[string]struct{ X int }{"k": {4}}, &c14ptrFmter{"pf"}}
 }
 
 func runC14(c *Ctx) {
@@ -293,6 +301,6 @@ func runC14(c *Ctx) {
 		}
 	})
 	c.res.Exhaustive = true
-	c.res.Bound = "32 flag subsets x widths {absent,*=0,1,7,12,1000,*=-7} x precisions {absent,'.',0,1,5,*=3,*=-1} x 58 verbs; 16 operand kinds x 4 wrappers"
+	c.res.Bound = "32 flag subsets x widths {absent,*=0,1,7,12,1000,*=-7} x precisions {absent,'.',0,1,5,*=3,*=-1} x 58 verbs; 21 operand kinds x 4 wrappers"
 	c.res.Assumptions = []string{"go1.23.5 fmt is the reference fmt.State", "a present width of 0 and an absent width are the same width (fmt has no syntax for the former other than '*')"}
 }
